@@ -8,50 +8,60 @@ LEVEL = "proof"
 EXTRA_THEOREM_FILES = ["C15HevcTheorems.v", "C15HevcSliceTheorems.v", "C15HevcConfTheorems.v", "C15InitTheorems.v",
                        "C15TieTheorems.v", "C15Hevc2Theorems.v", "C15Avc2Theorems.v"]
 MANIFEST = {
-    "technique": "Coq proof (parser model applied to an independent serialiser of the standard's syntax) + differential "
-                 "correspondence: the extracted serialiser generates NAL units / configuration records from random field values, "
-                 "the real Go parsers and the extracted parser models parse them; failing-input search = the real parsers against "
-                 "the coded values",
-    "level_text": "Proved for ALL valid field assignments (no bound on counts or values inside the standard's ranges; theorems in "
-                  "coq/c15/C15Theorems.v, C15HevcTheorems.v, C15HevcSliceTheorems.v, C15HevcConfTheorems.v, all closed under the "
-                  "global context): AVC - C15_avc_sps / _all_valid (every profile_idc branch, scaling lists, poc types 0-2, "
-                  "frame/field, cropping, VUI+HRD), C15_avc_dims (width/height by the cropping formula), C15_avc_pps (all "
-                  "slice-group map types, more_rbsp_data tail, scaling lists), C15_avc_slice (every slice type, arbitrary "
-                  "spsmap/ppsmap incl. pps id != sps id: PPS resolved through the slice's pps id, SPS through that PPS's sps id, "
-                  "Size = bytes the header occupies; guard: no slice-group map type 3..5), C15_avc_confrec / _decode / _encode / "
-                  "_roundtrip and C15_avc_codec_string (record and avc1.PPCCLL carry profile, compatibility, level, chroma format, "
-                  "bit depths and the NAL units verbatim; Encode = the 14496-15 bit layout; decode(encode) round trip); the two "
-                  "known findings are pinned by C15_avc_sps_offsets_refuted (F2) and C15_avc_slice_fmo_refuted (F7). "
-                  "HEVC - C15_hevc_sps (profile_tier_level with sub-layers, conformance window, sub-layer ordering, scaling list "
-                  "data, st_ref_pic_set incl. inter-RPS prediction chains of any depth with NumDeltaPocs by (7-61)/(7-62), "
-                  "long-term refs, VUI+HRD, range/multilayer/3D/SCC extensions, extension data), C15_hevc_dims (ImageSize = "
-                  "conformance-window cropping), C15_hevc_pps (tiles, deblocking, scaling-list skip, range and SCC extensions), "
-                  "C15_hevc_slice (all slice types, first/non-first/dependent segments with slice_segment_address of "
-                  "Ceil(Log2(PicSizeInCtbsY)) bits, RPS coded in the slice or selected from the SPS incl. inter-predicted sets, "
-                  "long-term entries, NumPicTotalCurr, ref_pic_lists_modification, pred_weight_table, entry points, header "
-                  "extension, byte_alignment; arbitrary maps incl. pps id != sps id; Size = bytes of the escaped NAL unit that "
-                  "hold the header), C15_hevc_confrec_create / _encode / _roundtrip and C15_hevc_codec_string. "
-                  "History independence: the slice theorems hold for ARBITRARY spsmap / ppsmap, and C15_avc_slice_maps_only / "
-                  "C15_hevc_slice_maps_only state that the parsers' result is a function of the contents of the two maps at the "
-                  "call only (a parsed PPS holds no reference to an SPS in the model); the correspondence and the search replay "
-                  "HISTORIES on the real API (ParseSPS / ParsePPS against the map of the moment / replace an SPS or PPS under the "
-                  "same id / delete / fresh maps / slice parsed against other maps than its PPS was) with the expected values taken "
-                  "from the maps as they are at the slice call. C15_avc_init / C15_hevc_init: sample descriptions. "
+    "technique": "Coq proof (parser model applied to an independent serialiser of the standard's syntax; relational program "
+                 "logic tying the instance over the C13 machine model of bits.EBSPReader to the ideal bit-list reader) + "
+                 "differential correspondence: the extracted serialiser generates NAL units / configuration records from random "
+                 "field values, the real Go parsers and the extracted parser models parse them; failing-input search = the real "
+                 "parsers against the coded values",
+    "level_text": "Proved for ALL valid field assignments (no bound on counts or values inside the standard's ranges; theorem files "
+                  "coq/c15/C15Theorems.v, C15Avc2Theorems.v, C15HevcTheorems.v, C15HevcSliceTheorems.v, C15Hevc2Theorems.v, "
+                  "C15HevcConfTheorems.v, C15InitTheorems.v, C15TieTheorems.v, all closed under the global context). "
+                  "AVC - C15_avc_sps / _all_valid (every profile_idc branch, scaling lists, poc types 0-2, frame/field, cropping, "
+                  "VUI+HRD), C15_avc_dims (cropping formula), C15_avc_pps (all slice-group map types, more_rbsp_data tail, scaling "
+                  "lists), C15_avc_slice_all (repaired text, /repo 174cc8e: every slice type, arbitrary spsmap/ppsmap incl. pps id != "
+                  "sps id: PPS through the slice's pps id, SPS through that PPS's sps id, Size = bytes the header occupies, "
+                  "slice-group map types 3..5 with slice_group_change_cycle of Ceil(Log2(PicSizeInMapUnits / SliceGroupChangeRate + 1)) "
+                  "bits INCLUDED - no guard left; C15_avc_pic_size_derivable: PicSizeInMapUnits is recomputed exactly from the "
+                  "fields avc.SPS keeps), C15_avc_confrec / _decode / _encode / _roundtrip, C15_avc_codec_string; the one "
+                  "remaining known finding is pinned by C15_avc_sps_offsets_refuted (F2: se(v) offsets read as ue into uint fields, "
+                  "public field types). (C15_avc_slice / C15_avc_slice_fmo_refuted speak about C15Model.parse_slice_header, the text "
+                  "BEFORE the F7 repair, kept unchanged for the properties that import it.) "
+                  "HEVC - C15_hevc_sps (profile_tier_level with sub-layers, conformance window, scaling list data, st_ref_pic_set "
+                  "incl. inter-RPS chains of any depth, long-term refs, VUI+HRD, range/multilayer/3D/SCC extensions, extension data), "
+                  "C15_hevc_dims, C15_hevc_pps (tiles, deblocking, scaling-list skip, range and SCC extensions), C15_hevc_pps_ext "
+                  "(the same PPS WITH pps_multilayer_extension: reference location offsets, colour_mapping_table with the octant "
+                  "tree of any shape up to depth 3 by induction over the tree - and pps_3d_extension: depth lookup tables with "
+                  "value flags or delta_dlt()), C15_hevc_slice (all slice types, first/non-first/dependent segments, RPS coded or "
+                  "selected incl. inter-predicted, long-term, NumPicTotalCurr, lists modification, pred weight table, entry points, "
+                  "extension, byte_alignment; arbitrary maps; Size), C15_hevc_confrec_create / _encode / _roundtrip, "
+                  "C15_hevc_codec_string; C15_avc_init / C15_hevc_init (sample descriptions); C15_*_slice_maps_only (history "
+                  "independence). "
+                  "READER TIE (C15TieTheorems.v, C15Avc2Theorems.v, C15Hevc2Theorems.v): C15_reader_tie_avc_sps / _avc_pps / "
+                  "_avc_slice(_all) / _hevc_pps(_ext) / _hevc_slice: for EVERY byte string raw (well formed or not) whose bits hold no "
+                  "run of more than 56 zero bits, escaped by the emulation-prevention rule, the parser over the C13 machine model "
+                  "of bits.EBSPReader (64-bit accumulator over the escaped bytes, sticky error, NrBytesRead = position in the escaped "
+                  "stream, MoreRbspData, ReadRbspTrailingBits, SetError) returns exactly what the parser over the ideal bit reader "
+                  "returns (value, Err or OutOfFuel; slice parsers: for maps whose parameter sets have log2_max_* within the "
+                  "accumulator); C15_reader_tie_hevc_sps: the Ok direction under bit depths <= 48 and log2_max_poc_lsb <= 52 (the Go "
+                  "SPS parser reads palette initialisers / lt_ref_pic_poc_lsb_sps with widths taken from the stream without a range "
+                  "check). Hence C15_avc_sps_er / _pps_er / _slice_er / _slice_all_er, C15_hevc_sps_er / _pps_er / _pps_ext_er / "
+                  "_slice_er: the main theorems for the EBSP-reader instance on the serialiser's bytes AFTER emulation prevention "
+                  "(extra hypothesis zrun_ok: no run of more than 56 zero bits in the unescaped NAL unit). "
                   "EXPLORED only (correspondence + search on generated and captured inputs, no theorem): mutated / truncated NAL "
-                  "units and records (model = code on the outcome class and values), the EBSP-reader instance of the models. "
-                  "Sample descriptions (mp4 SetAVCDescriptor / SetHEVCDescriptor: tkhd and sample-entry width/height, avcC / hvcC) are "
-                  "modelled, tied by correspondence and composed from the theorems above (C15InitTheorems.v). "
-                  "NOT modelled: the HEVC PPS multilayer and 3D extensions (parseMultilayerExtension with the colour mapping "
-                  "octants, parse3dExtension) - for NAL units that carry them the property is not decided by this check.",
+                  "units and records beyond the reader tie (model = code on outcome class and values), valid NAL units with a run of "
+                  "more than 56 zero bits for the EBSP instance, colour mapping tables with res_coeff_r wider than 56 bits and depth "
+                  "lookup tables with more than 2^16 value flags (model answers OutOfFuel: not compared).",
     "level_note": "Trusted: Coq kernel, extraction, OCaml/Go glue; the hand-written serialisers and expected values of C15Spec.v, "
-                  "C15AvcConfSpec.v, C15HevcSpec.v, C15HevcConfSpec.v (my transcription of the syntax tables of ISO/IEC 14496-10 "
-                  "7.3.2-7.3.3, 23008-2 7.3 / E.2 and 14496-15 5.3.3.1.2 / 8.3.3.1.2 / E.3; cross-checked on every run against the "
-                  "real parsers and on the parameter sets, slice segments and avcC/hvcC records captured from the repository's test "
-                  "data); the hand transcriptions C15Model.v, C15AvcConfModel.v, C15HevcModel.v, C15HevcConfModel.v (+ the C16 model "
-                  "of DecodeHEVCDecConfRec) of the Go code, tied to /repo by the correspondence on generated inputs only. The bit "
-                  "reader in the proofs is the ideal bit-list reader; the correspondence additionally runs the C13 EBSP-reader "
-                  "instance on every case. Unexported state (ShortTermRPS.numUsedByCurrPic) is observed only through its effect on "
-                  "the slice header. Seven defects found by this check were repaired in /repo (known_findings/C15.json).",
+                  "C15AvcConfSpec.v, C15HevcSpec.v, C15Hevc2Spec.v, C15HevcConfSpec.v (my transcription of the syntax tables of ISO/IEC "
+                  "14496-10 7.3.2-7.3.3, 23008-2 7.3 / E.2 / F.7.3.2.3.4-6 / I.7.3.2.3.7-8 and 14496-15; cross-checked on every run "
+                  "against the real parsers and, except for the multilayer / 3D PPS extensions, on captured parameter sets of the "
+                  "repository's test data); the hand transcriptions C15Model.v, C15Avc2Model.v (repaired slice header), "
+                  "C15AvcConfModel.v, C15HevcModel.v, C15Hevc2Model.v, C15HevcConfModel.v (+ the C16 model of DecodeHEVCDecConfRec) "
+                  "of the Go code, tied to /repo by the correspondence on generated inputs only; the C13 model of bits.EBSPReader "
+                  "(tied to /repo by C13's own correspondence). The Go map of colour mapping octants is compared by sorted key, the "
+                  "map of reference location offsets through RefLocOffsetLayerIds (validity: distinct ids are generated). Unexported "
+                  "state (ShortTermRPS.numUsedByCurrPic) is observed only through its effect on the slice header. Nine defects found "
+                  "by this check were repaired in /repo (known_findings/C15.json: F1, F3-F12); F2 stays known.",
 }
 
 
@@ -99,12 +109,19 @@ def run(ctx):
         "parameter of ISO/IEC 14496-15 8.3.3.1.2 / E.3",
         "HEVC model: coq/c15/C15HevcModel.v, C15HevcConfModel.v — hand transcription of hevc/sps.go, hevc/pps.go, hevc/slice.go, "
         "hevc/hevcdecoderconfigurationrecord.go (Create/Size/Encode; the decoder is the C16 model C16ConfRecModel.v), hevc/mime.go; "
-        "NOT modelled: the PPS multilayer and 3D extensions (parseMultilayerExtension with the colour mapping octants, "
-        "parse3dExtension) - such NAL units are outside the correspondence",
+        "coq/c15/C15Hevc2Model.v — ParsePPSNALUnit with parseMultilayerExtension / parseColourMappingTable / "
+        "parseColourMappingOctants / parse3dExtension / parseDeltaDlt (kind HPPS2); coq/c15/C15Avc2Model.v — the repaired "
+        "avc.ParseSliceHeader (slice_group_change_cycle width from SPS.picSizeInMapUnits)",
+        "HEVC PPS extension spec: coq/c15/C15Hevc2Spec.v — serialisers written by hand from ISO/IEC 23008-2 F.7.3.2.3.4 "
+        "(pps_multilayer_extension), F.7.3.2.3.5 (colour_mapping_table), F.7.3.2.3.6 (colour_mapping_octants), I.7.3.2.3.7 "
+        "(pps_3d_extension), I.7.3.2.3.8 (delta_dlt), CMResLSBits, the octant index derivation",
     ]
     ctx.assumptions += [
         "ue(v) values are below 2^32-1 and se(v) values within int32 (the standard's ranges); beyond that the Go reader wraps at 64 bits",
         "the reader is a bytes.Reader / bytes.Buffer over the whole NAL unit (EOF is the only error)",
+        "reader-tie theorems: the unescaped NAL unit holds no run of more than 56 zero bits (longer Exp-Golomb prefixes make Go's "
+        "64-bit reader wrap); NAL units are escaped canonically (escape of C13Spec)",
+        "AVC slices with slice groups: PicSizeInMapUnits < 2^32 (bits.CeilLog2 answers at most 32)",
         "HEVC: single-layer streams (nuh_layer_id is coded but no inter-layer syntax), pred_weight_table entries are all coded "
         "(the pic_layer_id / PicOrderCnt condition of 7.3.6.3 is true, as in the Go parser); an st_ref_pic_set never predicts an "
         "entry with dPoc = 0 (the current picture)",
@@ -188,7 +205,9 @@ def run(ctx):
                        "sets of the repository's test data; distinct = distinct NAL units; corr compares Go with the EBSP-reader model, the "
                        "bit-reader model and the expected values; search compares Go with the expected values; slice cases are histories of "
                        "API calls (7 shapes incl. SPS/PPS replaced under the same id after the PPS was parsed, fresh maps, deletions; "
-                       "2 shapes where the slice must be rejected)" % n)
+                       "2 shapes where the slice must be rejected); HEVC PPS with multilayer / 3D extensions (kind HPPS2: 0..10 reference "
+                       "location offsets, colour mapping tables with octant trees of depth 0..3 and PartNumY 1..8, 1..64 depth layers with "
+                       "value flags or delta_dlt); the model-side verdicts are computed by 4 driver processes" % n)
 
 
 def replay(ctx, path):
